@@ -51,6 +51,11 @@ VP_INLINE void writer(int mode)
                 vp_win_exit(0, 1);
                 h.cancel();                            // discards the copy, frees the writer lock
                 vp_assert(!static_cast<bool>(h), 402);
+                {
+                    const char* wm_ = reinterpret_cast<const char*>(g_c) + WRITE_MUTEX_OFFSET;
+                    vp_assert(vp_mutex_owner(wm_) != vp_tid() + 1, 411);   // ... at once, not only when the (null) handle dies
+                }
+                vp_point();
             } else if (mode == 2) {
                 COW::handle h2(std::move(h));          // duty to commit moves with the handle
                 vp_gadd(G_COMMITS, 1);
